@@ -17,6 +17,7 @@ import mirq
 from mirq import show, access_path, AnchorMissing, const_of, walk
 from rulekit import Table
 from rules import common as C
+from rules import vocab as V
 
 TABLE = Table('C12')
 NOT_DECIDED = ('the full counter invariant "n = number of unchoked peers fetching i" over all histories (a relational '
@@ -54,7 +55,7 @@ def status_events(f, path):
             if s['k'] != 'assign' or not s['lhs'].get('p'):
                 continue
             le = f.expr_place(s['lhs'])
-            if not (le[0] == 'call' and le[4].get('name') == 'index_mut' and 'pieces_status' in show(le[2][0])):
+            if not V.status_elem(f, le):
                 continue
             rv = s['rv']
             if rv['k'] == 'use':
@@ -75,7 +76,7 @@ def record_events(f, path):
     out = []
     for pi, bb in enumerate(path):
         for si, s in enumerate(f.blocks[bb]['s']):
-            if s['k'] == 'assign' and s['lhs'].get('p') and access_path(f.expr_place(s['lhs'])) == 'self.piece_index':
+            if s['k'] == 'assign' and s['lhs'].get('p') and access_path(f.expr_place(s['lhs'])) == rec_path(f.facts):
                 v = f.expr_rvalue(s['rv'])
                 if v[0] == 'agg' and v[3] == 'Some':
                     out.append(('Some:' + (access_path(v[4][0][1]) or show(v[4][0][1])), bb))
@@ -86,10 +87,20 @@ def record_events(f, path):
     return out
 
 
+def rec_path(F):
+    """`self.<field>` of the Peer field recording the piece the peer is fetching"""
+    return 'self.' + V.peer_record(F)
+
+
+def choked_path(F):
+    """`self.<field>` of the Peer flag: this peer is choking us"""
+    return 'self.' + V.peer_choked(F)
+
+
 def _touches(f):
     for bi, si, s in f.stores():
         le = f.expr_place(s['lhs'])
-        if (le[0] == 'call' and le[4].get('name') == 'index_mut' and 'pieces_status' in show(le[2][0])) or access_path(le) == 'self.piece_index':
+        if V.status_elem(f, le) or access_path(le) == rec_path(f.facts):
             return True
     return False
 
@@ -97,7 +108,7 @@ def _touches(f):
 def _relevant(g):
     """callee that takes part in reservation bookkeeping: a Status in its signature, or a store to piece_index"""
     return any('session::Status' in g.locals[i]['ty'] for i in range(g.argc + 1)) or \
-        any(access_path(g.expr_place(s['lhs'])) == 'self.piece_index' for bi, si, s in g.stores())
+        any(access_path(g.expr_place(s['lhs'])) == rec_path(g.facts) for bi, si, s in g.stores())
 
 
 def _pure(g):
@@ -143,6 +154,12 @@ def spliced_fns(F):
 def handlers(F):
     """functions that store into the status vector or into Peer.piece_index (helpers spliced in)"""
     return [f for f in spliced_fns(F) if _touches(f)]
+
+
+def reqdata_builder(F):
+    """the function that builds the request data (ReqData) for a piece index"""
+    rd = [f for f in F.user_fns() if mirq.agg_sites(f, r'^commands::ReqData$')]
+    return C.one(rd, 'ReqData builder')
 
 
 def paths_of(f):
@@ -191,7 +208,7 @@ def callers_released(F, f):
         ok = False
         for p, pf in paths_of_to(g, bb):
             ev = status_events(g, p)
-            if any(kind in ('have', 'dec', 'missing') and 'piece_index' in idx for kind, idx, b2, ish in ev):
+            if any(kind in ('have', 'dec', 'missing') and V.peer_record(F) in idx for kind, idx, b2, ish in ev):
                 ok = True
             else:
                 return False
@@ -216,7 +233,7 @@ def paths_of_to(f, bb):
 def r2(cx, rec):
     F = cx.F
     for f in handlers(F):
-        if f.path.startswith('session::') and not any(access_path(f.expr_place(s['lhs'])) == 'self.piece_index' for bi, si, s in f.stores()):
+        if f.path.startswith('session::') and not any(access_path(f.expr_place(s['lhs'])) == rec_path(F) for bi, si, s in f.stores()):
             continue
         pre = None
         for p, pf in paths_of(f):
@@ -226,10 +243,10 @@ def r2(cx, rec):
             ev = status_events(f, p)
             at = pf['atoms']
             for r, rb in recs[:1]:
-                released = any(kind in ('dec', 'missing', 'have') and 'self.piece_index' in idx and p.index(b2) <= p.index(rb) for kind, idx, b2, ish in ev)
-                choked = any(k.endswith('self.choked') and v is True for k, v in at.items())
-                none_known = any('is_none(self.piece_index)' in k and v is True for k, v in at.items()) or \
-                    any(k.startswith('discr(self.piece_index)') and v == 'None' for k, v in at.items())
+                released = any(kind in ('dec', 'missing', 'have') and rec_path(F) in idx and p.index(b2) <= p.index(rb) for kind, idx, b2, ish in ev)
+                choked = any(k.endswith(choked_path(F)) and v is True for k, v in at.items())
+                none_known = any(('is_none(%s)' % rec_path(F)) in k and v is True for k, v in at.items()) or \
+                    any(k.startswith('discr(%s)' % rec_path(F)) and v == 'None' for k, v in at.items())
                 if pre is None:
                     pre = callers_released(F, f)
                 why = 'released' if released else 'peer-choking' if choked else 'old-is-None' if none_known else 'callers-released' if pre else None
@@ -251,7 +268,7 @@ def r3(cx, rec):
             ret = mirq.value_on_path(f, p, 0)
             rs = show(ret)
             for idx, bb in acq:
-                reqs = [x for x in walk(ret) if x[0] == 'call' and x[1].endswith('req_data')]
+                reqs = [x for x in walk(ret) if x[0] == 'call' and x[1] == reqdata_builder(F).path]
                 ok = any(norm_idx(access_path(x[2][1])) == norm_idx(idx) for x in reqs)
                 rec.site(f, bb, 'acquire(%s) -> returns %s' % (idx, rs[:70]))
                 rec.need(ok, 'acquire-without-request/' + f.path, f, bb,
@@ -268,9 +285,8 @@ def r3b(cx, rec):
             if not acq:
                 continue
             at = pf['atoms']
-            not_choking = any(k.endswith('self.choked') and v is False for k, v in at.items()) or \
-                any(sp == 'self.choked' and const_of(v) and const_of(v)[0] == 0 for sp, v, b2 in pf['stores'])
-            wrong = [k for k, v in at.items() if k.endswith('choked') and not k.endswith('self.choked')]
+            not_choking = any(k.endswith(choked_path(F)) and v is False for k, v in at.items()) or \
+                any(sp == choked_path(F) and const_of(v) and const_of(v)[0] == 0 for sp, v, b2 in pf['stores'])
             for idx, bb in acq:
                 rec.site(f, bb, 'acquire(%s): peer known not to choke us on this path: %s' % (idx, not_choking))
                 rec.need(not_choking, 'acquire-while-choked/' + f.path, f, bb,
@@ -281,22 +297,22 @@ def r3b(cx, rec):
 @TABLE.rule('4', 'K8', 'the choke handler releases the recorded element and records choked = true', floor=2)
 def r4(cx, rec):
     F = cx.F
-    chs = [f for f in handlers(F) if any(access_path(f.expr_place(s['lhs'])) == 'self.choked' and const_of(f.expr_rvalue(s['rv'])) and const_of(f.expr_rvalue(s['rv']))[0] == 1 for bi, si, s in f.stores())]
+    chs = [f for f in handlers(F) if any(access_path(f.expr_place(s['lhs'])) == choked_path(F) and const_of(f.expr_rvalue(s['rv'])) and const_of(f.expr_rvalue(s['rv']))[0] == 1 for bi, si, s in f.stores())]
     chs = [f for f in chs if f.name != 'new']
     Hc = C.one(chs, 'handler that records choked = true')
     for p, pf in paths_of(Hc):
         ev = status_events(Hc, p)
         at = pf['atoms']
-        has = [v for k, v in at.items() if k.startswith('discr(self.piece_index)')]
-        elem = [v for k, v in at.items() if k.startswith('discr(') and 'pieces_status' in k]
+        has = [v for k, v in at.items() if k.startswith('discr(%s)' % rec_path(F))]
+        elem = [v for k, v in at.items() if k.startswith('discr(') and 'Index::index' in k and v in ('Missing', 'Reserved', 'Have')]
         if has and has[0] == 'Some':
-            kinds = [kind for kind, idx, bb, ish in ev if 'self.piece_index' in idx]
+            kinds = [kind for kind, idx, bb, ish in ev if rec_path(F) in idx]
             rec.site(Hc, p[-1], 'assigned, element %s -> %s' % (elem, kinds))
             if elem and elem[0] == 'Reserved':
                 rec.need(kinds and kinds[0] in ('dec', 'missing'), 'choke-without-release', Hc, p[-1], 'a choke does not release the reservation (element Reserved -> %s)' % kinds)
             elif elem:
                 rec.need(not kinds or kinds[0] in ('have', 'missing'), 'choke-changes-state', Hc, p[-1], 'choke rewrites a %s element to %s' % (elem[0], kinds))
-    st = [bi for bi, si, s in Hc.stores() if access_path(Hc.expr_place(s['lhs'])) == 'self.choked']
+    st = [bi for bi, si, s in Hc.stores() if access_path(Hc.expr_place(s['lhs'])) == choked_path(F)]
     ok, bad = C.must_pass(Hc, st, Hc.return_blocks())
     rec.need(ok, 'choke-not-recorded', Hc, None, 'a path through the choke handler does not record choked = true')
     # dec only under n >= 2
@@ -320,7 +336,7 @@ def r5(cx, rec):
                 at = pf['atoms']
                 excl = False
                 for k, v in at.items():
-                    if 'pieces_status' not in k or ish not in k:
+                    if 'Index::index' not in k or ish not in k:
                         continue
                     if k.startswith('discr(') and v in ('Missing', 'Reserved'):
                         excl = True
@@ -339,8 +355,7 @@ def r5(cx, rec):
             'under status == Missing after pieces[i] = true)', floor=4)
 def r6(cx, rec):
     F = cx.F
-    rd = [f for f in F.user_fns() if mirq.agg_sites(f, r'^commands::ReqData$')]
-    RD = C.one(rd, 'ReqData builder')
+    RD = reqdata_builder(F)
     from rules import C13
     Ch = F.owner_fn(C13.chooser(F)).path
     for f, bb in C.callers(F, RD.path):
@@ -385,7 +400,7 @@ def r6b(cx, rec):
         chs = C.calls_to_fn(F, f, Ch)
         if not chs:
             continue
-        direct = [bi for bi, si, s in f.stores() if (lambda le: le[0] == 'call' and le[4].get('name') == 'index_mut' and 'pieces_status' in show(le[2][0]))(f.expr_place(s['lhs']))]
+        direct = [bi for bi, si, s in f.stores() if V.status_elem(f, f.expr_place(s['lhs']))]
         for cb in chs:
             # stores are statements, the call is the terminator: a store in the call's own block precedes it
             after = set()
@@ -449,7 +464,14 @@ def r7(cx, rec):
             roots.append(f.path)
     keep = re.compile(r'^(session::|peer::|metainfo::Metainfo::(piece|piece_length|pieces_num|info_hash|total_length)$|messages::bitfield::Bitfield::(to_vec|from_vec)$)')
     skip = {p for p in F.fns if not keep.search(p)}
-    a = C.Audit(F, roots, ALLOW, skip_fns=skip)
+    def canon(f, text):
+        # the table speaks of `pieces_status` (any Status sequence: the manager's field or a parameter receiving it)
+        # and of `piece_index` (the Peer's record); map the tree's current names onto those words
+        names = {V.status_vec(F)} | {n for n, l, t in C.params_of(f) if 'session::Status' in t}
+        for n in names:
+            text = re.sub(r'\b%s\b' % re.escape(n), 'pieces_status', text)
+        return re.sub(r'\b%s\b' % re.escape(V.peer_record(F)), 'piece_index', text)
+    a = C.Audit(F, roots, ALLOW, skip_fns=skip, canon=canon)
 
     class Proxy:
         def __init__(self, rec):
